@@ -179,7 +179,12 @@ func writeUnbrotli(w io.Writer, p []byte, maxBodySize int) (int, error) {
 		return 0, err
 	}
 	n, err := copyZeroAllocWithLimit(w, zr, maxBodySize)
-	releaseBrotliReader(zr)
+	if err == nil {
+		// A reader that stopped early (limit hit, corrupt input) may still
+		// hold unconsumed input that Reset does not discard; pooling it would
+		// corrupt the next decode.
+		releaseBrotliReader(zr)
+	}
 	nn := int(n)
 	if int64(nn) != n {
 		return 0, fmt.Errorf("too much data unbrotlied: %d", n)
